@@ -317,7 +317,7 @@ func check(id, tier string) int {
 	nviol := 0
 	var unrepro []string
 	var knownHit []string
-	var rerun map[string]bool
+	var rerun, rerun3 map[string]bool
 	knownAgg := map[int]*[2]int{}
 	var knownOrder []int
 	rdir := filepath.Join(root, "replays", id)
@@ -370,18 +370,27 @@ func check(id, tier string) int {
 			// no single-case replay exists for this violation: run the whole check a second
 			// time and believe the violation only if it shows up again
 			if rerun == nil {
-				rerun = map[string]bool{}
-				for _, of := range runShards("out2") {
-					var r report
-					if b, err := os.ReadFile(of); err == nil && json.Unmarshal(b, &r) == nil {
-						for _, v2 := range r.Violations {
-							rerun[v2.Sig] = true
-						}
-					}
-				}
+				rerun = rerunSigs(runShards, "out2")
 			}
 			if rerun[sig] {
 				okRuns = 5
+			}
+		}
+		historyDependent := false
+		if okRuns == 0 && v.Replay != nil && v.Replay["noreplay"] == nil {
+			// the case does not fail when executed alone in a fresh process. It may depend on what the
+			// same worker executed before it (state surviving from one case to the next is exactly what
+			// some properties exclude): believe it if the same signature shows up again in two further
+			// complete runs of the check, which repeat every worker's whole sequence.
+			if rerun == nil {
+				rerun = rerunSigs(runShards, "out2")
+			}
+			if rerun3 == nil {
+				rerun3 = rerunSigs(runShards, "out3")
+			}
+			if rerun[sig] && rerun3[sig] {
+				okRuns = 5
+				historyDependent = true
 			}
 		}
 		need := 5
@@ -394,6 +403,13 @@ func check(id, tier string) int {
 			continue
 		}
 		nviol++
+		if historyDependent {
+			doc["history_dependent"] = "does not fail when this case runs alone in a fresh process; failed in three complete runs of the check: replay with ./check " + id + " " + tier
+			b, _ := json.MarshalIndent(doc, "", " ")
+			os.WriteFile(rf, b, 0o644)
+			lines = append(lines, fmt.Sprintf("VIOLATION property=%s replay=%s sig=%s [depends on the cases the worker ran before it] %s", id, rf, sig, oneline(v.Detail, 300)))
+			continue
+		}
 		lines = append(lines, fmt.Sprintf("VIOLATION property=%s replay=%s sig=%s %s", id, rf, sig, oneline(v.Detail, 300)))
 	}
 	for _, fi := range knownOrder {
@@ -459,6 +475,20 @@ func check(id, tier string) int {
 		return 1
 	}
 	return 0
+}
+
+// rerunSigs runs all shards again into the given output directory and returns the violation signatures seen.
+func rerunSigs(runShards func(string) []string, dir string) map[string]bool {
+	out := map[string]bool{}
+	for _, of := range runShards(dir) {
+		var r report
+		if b, err := os.ReadFile(of); err == nil && json.Unmarshal(b, &r) == nil {
+			for _, v2 := range r.Violations {
+				out[v2.Sig] = true
+			}
+		}
+	}
+	return out
 }
 
 func replaySig(bin string, sp propSpec, id, rf string, k int, sig, alt string) bool {
